@@ -34,17 +34,17 @@ P = {
  "C11": ("exploration", "3.C11", "differential testing against an independent RPSL evaluator over generated IRR databases (in-process, bgpfu binary, agent binary)",
   "Generated databases (nested/cyclic sets, v4-only/v6-only/no routes, duplicates) x generated expressions; output ranges compared pointwise with the reference on boundary probes; the agent's installed filters likewise.", "fake IRRd fidelity; parenthesised expressions; dependency limits (NOT on long prefixes, cross-family ^n-m) excluded."),
  "C12": ("exploration", "3.C12", "generated server hellos in both arrival orders + framing check over real transports",
-  "4k (quick) / 200k hellos (version subsets, session-ids from a fixed list of forms and generated around the 32- and 64-bit boundaries, namespaces, orders) through the real establishment under the scheduler; reported context compared with the hello; a conforming chunked-framing server over TLS/SSH/child process checks usability after negotiation.", "xs:unsignedInt lexical space for session-id."),
+  "4k (quick) / 200k hellos (version subsets, session-ids from a fixed list of forms and generated around the 32- and 64-bit boundaries, namespaces, orders) through the real establishment under the scheduler; reported context compared with the hello; a conforming chunked-framing server over TLS/SSH/child process checks usability after negotiation; a hello whose delimiter never comes before the stream ends must not establish a session.", "xs:unsignedInt lexical space for session-id."),
  "C13": ("exploration", "3.C13", "metamorphic testing: every single XML-equivalent rewrite at every site + random compositions with delta-debugged signatures; rewrites guarded by an independent infoset comparison",
   "22 accepted base messages (hello, 4 reply types, candidate and installed configurations) x every applicable rewrite x every site, plus 5k (quick) / 1M random compositions.", "rewrites are information-preserving for these grammars; free-text leaves untouched."),
  "C14": ("exploration", "3.C14", "mutation fuzzing of server messages with panic / hang / collateral-failure monitors (release, dev, Miri, ASan builds)",
-  "100k (quick) / 10M mutated messages (17 operators, among them runs of multi-byte characters across size boundaries); replies are fed while two other requests are outstanding whose own replies follow; no panic, bounded time (watchdog with witness), at most the affected call fails; when the damaged reply's start tag (message-id) is untouched no other request may fail and its owner must resolve.", "mutation operators of harness/src/parse.rs."),
+  "100k (quick) / 10M mutated messages (18 operators, among them runs of multi-byte characters across size boundaries and two replies with different ids in one frame); replies are fed while two other requests are outstanding whose own replies follow; no panic, bounded time (watchdog with witness), at most the affected call fails; when the damaged reply's start tag (message-id) is untouched no other request may fail and its owner must resolve.", "mutation operators of harness/src/parse.rs."),
  "C15": ("fault_enumeration", "3.C15", "real agent binary with k good + m unevaluable policies, per-policy outcome monitor",
   "Every unevaluable kind alone (once already installed, once not yet installed) and combined, every other case sharing a filter-set between good and unevaluable policies, (unknown as-set, IRR error, PeerAS, AS-path regex, attribute match) among 1-4 good policies in varying hash orders; good ones must be installed, committed and equal the oracle; unevaluable ones untouched.", "fake Junos/IRRd."),
  "C16": ("exploration", "3.C16", "generated running configurations against the generator's own selection",
-  "20k (quick) / 2M configurations mixing managed, inactive, unannotated, unparseable, marker-not-at-start-of-comment and other-content statements, attribute orders, duplicate xmlns:jcmd, escaped names.", "parseability of an annotation = rpsl grammar."),
+  "20k (quick) / 2M configurations mixing managed, inactive, unannotated, unparseable, marker-not-at-start-of-comment and other-content statements, attribute orders, duplicate xmlns:jcmd, escaped names, attribute values re-spelled with character references.", "parseability of an annotation = rpsl grammar."),
  "C17": ("fault_enumeration", "3.C17", "shared-connection vs fresh-connection differential with query-keyed IRR error injection",
-  "150 (quick) / 20k sequences of 2-12 expressions on one evaluator with D/E/F injected on arbitrary queries, permanent and transient, plus saturation sequences (the same failing or panicking expression 1..257 times, then a good one sharing a filter-set); each result equals the fresh-connection result.", "faults keyed by query text."),
+  "150 (quick) / 20k sequences of 2-12 expressions on one evaluator with D/E/F injected on arbitrary queries, permanent and transient, against servers that answer D or C for an empty set, with short and long multi-byte error texts, plus saturation sequences (the same failing or panicking expression 1..257 times, then a good one sharing a filter-set); each result equals the fresh-connection result.", "faults keyed by query text."),
  "C18": ("exploration", "3.C18", "controlled scheduler with drop actions at every suspension point + real-transport partial-message drops; Miri and ThreadSanitizer as secondary oracles",
   "As C05 plus drop(task) actions (never polled, waiting for a lock, reader waiting for the transport, reader holding an unparked reply) exhaustively for n<=2/3 (also with 70 kB replies) and randomly (reply sizes 150 B - 300 kB); long-lived sessions (0..4096, thorough ..70k completed requests, then bursts of 2..400 of which all but one are abandoned, their replies arriving before or after the next request); TLS/SSH/child-process cases drop the reader after a partial message (thorough: also in a ThreadSanitizer build).", "as C05."),
  "C19": ("exploration", "3.C19", "real daemon under an LD_PRELOAD clock-dilation shim; virtual-time monitor of connection timestamps, logged delays, signals",
